@@ -78,7 +78,7 @@ pub fn run(tier: Tier, seed: u64) -> i32 {
     let mut s = Session::new("C20", tier, seed, "exploration", rule);
     s.assume("the first getinfo of a lifetime (BlockWatcher::start) is answered at once with the node's height; later polls are answered by driver steps");
     s.regress::<Scenario, _>("world", case);
-    s.search("world-blockwatcher", "world", tier.pick(400, 10000), c20_strategy, case);
+    s.search("world-blockwatcher", "world", tier.pick(600, 10000), c20_strategy, case);
     if tier == Tier::Thorough {
         crate::e2e::c20_e2e(&mut s);
     }
